@@ -185,11 +185,62 @@ def run(ctx):
              "(vm_compute, binary64 by Flocq, bit-exact) and the chunk lengths compared",
         samples=[dict(case=cases[i], impl_lens=impl[i]['lens'][:16]) for i in (0, len(cases) // 3, len(cases) // 2, len(cases) - 1)],
         distribution=dist, model_impl_mismatches=len(mismatches), oracle_failures=len(oracle_bad))
+    # (c) through the pool: the chunk lengths main really dispatches (its own log), for parameter combinations incl.
+    #     chunk_size AND n_splits given together -- the explicit chunk size wins
+    from lib import runner
+    prng = random.Random(ctx['seed'] + 1414)
+    pscens = []
+    for k in range(16 if ctx['tier'] == 'quick' else 120):
+        n = prng.choice([7, 10, 23, 40])
+        params = {}
+        mode = prng.choice(['both', 'both', 'cs', 'ns'])
+        if mode in ('both', 'cs'):
+            params['chunk_size'] = prng.choice([1, 2, 3, 5])
+        if mode in ('both', 'ns'):
+            params['n_splits'] = prng.choice([1, 2, 3, 7])
+        inp = prng.choice(['list', 'gen'])
+        if inp == 'gen':
+            params['iterable_len'] = n
+        pscens.append({'id': f'pc{k}', 'pool': {'n_jobs': prng.choice([1, 2, 3]), 'start_method': prng.choice(['fork', 'threading'])}, 'budget': 60,
+                       'calls': [{'kind': prng.choice(['map', 'map_unordered', 'imap', 'imap_unordered']), 'n': n, 'input': inp, 'elem': 'scalar',
+                                  'params': params, 'base': 0}], 'mode': mode})
+    precs = runner.run_many(pscens, 'c14_pool', jobs=8)
+    for r in precs:
+        if len(res['violations']) >= 4:
+            break
+        sc = r['scenario']
+        c = sc['calls'][0]
+        if r['status'] != 'done' or not r['result'] or r['result']['calls'][0].get('outcome') != 'ok':
+            res['violations'].append(dict(found_input=True, what=f"pool-level chunking scenario failed: {r['status']}", signature='chunk_tasks:pool',
+                                          replay=dict(kind='scenario', scenario=sc, got=r['status'])))
+            continue
+        lens = [e['len'] for evs in r['events'].values() for e in evs
+                if e.get('k') == 'call' and e.get('m') == 'add_task' and e.get('what') == 'chunk']
+        n, p = c['n'], c['params']
+        if 'chunk_size' in p:
+            want = [p['chunk_size']] * (n // p['chunk_size']) + ([n % p['chunk_size']] if n % p['chunk_size'] else [])
+            if lens != want:
+                res['violations'].append(dict(found_input=True, signature='chunk_tasks:pool',
+                                              what=f"map(n={n}, {p}): dispatched chunk lengths {lens[:12]}, promised {want[:12]}",
+                                              replay=dict(kind='scenario', scenario=sc, got=f"lens {lens[:12]}")))
+        elif sum(lens) != n or len(lens) != min(n, p['n_splits']):
+            res['violations'].append(dict(found_input=True, signature='chunk_tasks:pool',
+                                          what=f"map(n={n}, {p}): {len(lens)} chunks with lengths {lens[:12]}",
+                                          replay=dict(kind='scenario', scenario=sc, got=f"lens {lens[:12]}")))
+    res['coverage']['pool_level_scenarios'] = len(precs)
+    res['coverage']['evaluations'] += len(precs)
     res['wall_s'] = time.time() - t0
     return res
 
 
 def replay(payload):
+    if payload.get('kind') == 'scenario':
+        from lib import runner
+        r = runner.run_many([payload['scenario']], 'replay', jobs=1, keep=True)[0]
+        lens = [e['len'] for evs in r['events'].values() for e in evs
+                if e.get('k') == 'call' and e.get('m') == 'add_task' and e.get('what') == 'chunk']
+        print('status', r['status'], 'dispatched chunk lengths', lens, 'params', payload['scenario']['calls'][0]['params'])
+        return 1
     r = run_impl([payload['case']], 'replay')[0]
     print("case:", payload['case'])
     print("implementation:", r)
